@@ -370,6 +370,7 @@ func (c *ctx) session5Facts() {
 	c.untarIndexAssembler()
 
 	c.cmdExtractTail()
+	c.nullWriteIntoTable()
 	c.cmdDelegates()
 	c.cmdServers()
 
@@ -727,4 +728,158 @@ func chunkProvenance(fd *ast.FuncDecl) []string {
 	})
 	sort.Strings(out)
 	return out
+}
+
+// decisionTable interprets the statements of a function body whose control flow is if / tagless switch / return over
+// boolean atoms (identifiers or selectors named in `atoms`, possibly negated and combined with && and ||), for every
+// assignment of the atoms, and reports which of the `leaves` (a call whose callee ends with the given suffix, or
+// "return" for a return that calls none of them) is reached first.  The result does not depend on how the decision
+// is spelled (nested ifs, a switch, inverted conditions with swapped branches).
+func decisionTable(body *ast.BlockStmt, atoms []string, leaves [][2]string) []string {
+	var rows []string
+	n := len(atoms)
+	for mask := 0; mask < 1<<uint(n); mask++ {
+		env := map[string]bool{}
+		var tag []string
+		for i, a := range atoms {
+			env[a] = mask&(1<<uint(n-1-i)) != 0
+			tag = append(tag, fmt.Sprintf("%v", env[a]))
+		}
+		rows = append(rows, strings.Join(tag, ",")+"->"+runBlock(body.List, env, leaves))
+	}
+	return rows
+}
+
+func evalBool(e ast.Expr, env map[string]bool) (val, known bool) {
+	switch t := e.(type) {
+	case *ast.ParenExpr:
+		return evalBool(t.X, env)
+	case *ast.UnaryExpr:
+		if t.Op == token.NOT {
+			v, k := evalBool(t.X, env)
+			return !v, k
+		}
+	case *ast.BinaryExpr:
+		l, lk := evalBool(t.X, env)
+		r, rk := evalBool(t.Y, env)
+		switch t.Op {
+		case token.LAND:
+			if (lk && !l) || (rk && !r) {
+				return false, true
+			}
+			return l && r, lk && rk
+		case token.LOR:
+			if (lk && l) || (rk && r) {
+				return true, true
+			}
+			return l || r, lk && rk
+		}
+	default:
+		s := exprString(e)
+		for a, v := range env {
+			if s == a || strings.HasSuffix(s, "."+a) {
+				return v, true
+			}
+		}
+	}
+	return false, false
+}
+
+func leafOf(st ast.Stmt, leaves [][2]string) string {
+	found := ""
+	walk(st, func(n ast.Node) bool {
+		if call, ok := n.(*ast.CallExpr); ok && found == "" {
+			fn := exprString(call.Fun)
+			for _, l := range leaves {
+				if strings.HasSuffix(fn, l[0]) {
+					found = l[1]
+				}
+			}
+		}
+		return true
+	})
+	return found
+}
+
+// runBlock returns the first leaf reached, "return" for a return without a leaf, "" when the block falls through,
+// "?" when a condition is not a function of the atoms
+func runBlock(list []ast.Stmt, env map[string]bool, leaves [][2]string) string {
+	for _, st := range list {
+		switch t := st.(type) {
+		case *ast.IfStmt:
+			v, known := evalBool(t.Cond, env)
+			if !known {
+				// a guard that does not depend on the atoms (an error check): it is not part of the decision
+				continue
+			}
+			var r string
+			if v {
+				r = runBlock(t.Body.List, env, leaves)
+			} else if t.Else != nil {
+				switch e := t.Else.(type) {
+				case *ast.BlockStmt:
+					r = runBlock(e.List, env, leaves)
+				case *ast.IfStmt:
+					r = runBlock([]ast.Stmt{e}, env, leaves)
+				}
+			}
+			if r != "" {
+				return r
+			}
+		case *ast.SwitchStmt:
+			if t.Tag != nil {
+				return "?"
+			}
+			var def *ast.CaseClause
+			taken := false
+			for _, cl := range t.Body.List {
+				cc := cl.(*ast.CaseClause)
+				if cc.List == nil {
+					def = cc
+					continue
+				}
+				hit := false
+				for _, e := range cc.List {
+					v, known := evalBool(e, env)
+					if !known {
+						return "?"
+					}
+					hit = hit || v
+				}
+				if hit {
+					taken = true
+					if r := runBlock(cc.Body, env, leaves); r != "" {
+						return r
+					}
+					break
+				}
+			}
+			if !taken && def != nil {
+				if r := runBlock(def.Body, env, leaves); r != "" {
+					return r
+				}
+			}
+		case *ast.ReturnStmt:
+			if l := leafOf(t, leaves); l != "" {
+				return l
+			}
+			return "return"
+		default:
+			if l := leafOf(st, leaves); l != "" {
+				return l
+			}
+		}
+	}
+	return ""
+}
+
+// nullWriteIntoTable: what nullChunkSection.WriteInto does for every combination of (canReflink, isBlank)
+func (c *ctx) nullWriteIntoTable() {
+	fd := c.funcDecl(c.files, "nullChunkSection", "WriteInto")
+	var rows []string
+	if fd != nil {
+		rows = decisionTable(fd.Body, []string{"canReflink", "isBlank"}, [][2]string{{".clone", "clone"}, {".copy", "copy"}})
+	}
+	c.lean.WriteString("\n/-- `nullChunkSection.WriteInto`: (canReflink, isBlank) -> what is done (clone the range, fill it by copying zeros, or return without writing); read off the control flow, however it is spelled -/\n")
+	c.emitShape("table_null_writeInto", "nullWriteIntoTable", rows, fd != nil)
 }
